@@ -1392,12 +1392,19 @@ func c13Script(r *gen.Rng, o *out.W) {
 	cur := w.Conn()
 	w.Connect(cur, "V", false, &packet.Message{Topic: "w", Payload: []byte("will-v0"), QOS: 1}, 0, "", "")
 	w.Subscribe(cur, packet.Subscription{Topic: "t", QOS: 2}, packet.Subscription{Topic: "w", QOS: 1})
-	for i, n := 0, 2+r.Intn(6); i < n; i++ {
-		switch r.Intn(5) {
+	for i, n := 0, 2+r.Intn(8); i < n; i++ {
+		switch r.Intn(6) {
 		case 0, 1:
 			w.Publish(p, "t", packet.QOS(r.Intn(3)), false, false)
 		case 2:
 			w.AckOne(cur, r.Intn(3))
+		case 3:
+			// the holder acknowledges an id it was never sent: its window widens, the session then records more
+			// unacknowledged deliveries than the window has slots — all of them pass to a newcomer
+			if w.alive(cur) {
+				w.Send(cur, &packet.Puback{ID: packet.ID(40000 + r.Intn(1000))})
+				w.Publish(p, "t", packet.QOS(1+r.Intn(2)), false, false)
+			}
 		default:
 			// a newer connection with the same id while the old one is idle / mid-handshake / dying
 			if r.Intn(4) == 0 {
